@@ -427,7 +427,9 @@ def on_dataclass(instance: Instance, ctx: Context) -> Optional[JSONSchema]:
             if description:
                 f_schema.description = description
 
-            if not has_default:
+            # a field with serialize="omit" is never written
+            omitted = f_instance.metadata.get("serialize") == "omit"
+            if not has_default and not omitted:
                 required.append(f_name)
 
             properties[f_name] = f_schema
